@@ -1,5 +1,5 @@
 """C02 Pseudoknot order assignment is a proper and optimal level assignment"""
-from gen.pairings import pairings_upto, random_structure, stems_of
+from gen.pairings import HAIRPIN, concat, pairings_upto, random_structure, stems_of, stretch
 from oracles import common_o as O
 from props._util import rng_for, run_cases
 from props.C01 import knotted
@@ -20,6 +20,17 @@ def bounded(tier, seed):
     rnd = [random_structure(rng, rng.randint(14, 50), rng.randint(3, 7), maxlen=4) for _ in range(40 if tier == "quick" else 400)]
     out.append(run_cases("optimal-random", rnd, O.c02_check, knotted, "random knotted structures with <=7 stems vs brute force",
                          f"{len(rnd)} structures, <=7 stems", sig=repr, relates="convert_to_dot_bracket"))
+    # knotted cores (every knotted pairing on <=6 positions) with random stem lengths, placed 3' of 0-4 unknotted hairpins:
+    # the conflict graph then has gaps in its vertex numbering and unequal stem weights
+    cores = [q for q in pairings_upto(6 if tier == "quick" else 7) if knotted(q)]
+    comp = []
+    for q in cores:
+        for j in (0, 1, 2, 4):
+            lens = [rng.randint(1, 4) for _ in range(4)]
+            comp.append(concat(*([HAIRPIN] * j), stretch(q, lens)))
+    out.append(run_cases("prefixed-weighted-knots", comp, O.c02_check, knotted,
+                         "knotted cores with random stem lengths placed after 0/1/2/4 unknotted hairpins vs brute force",
+                         f"{len(comp)} structures", sig=repr, relates="convert_to_dot_bracket"))
     return out
 
 
